@@ -261,3 +261,50 @@ func HarnessSurgery() {
 	zz.Assert(zzSameBytes(zz.FileBytes(src), before), "surgery/source-bytes-unchanged")
 	zz.Reach("done")
 }
+
+// HarnessInspectCLI (C17): the inspection commands, called directly on a database that another
+// read-only handle keeps open: they coexist with it, never write to the file and leave its bytes
+// unchanged (also when the file has no persisted free list).
+func HarnessInspectCLI() {
+	path := zz.TempPath("cliro.db")
+	db := zzBuild(path)
+	zz.Assert(db.Close() == nil, "inspect/close")
+	before := zz.FileBytes(path)
+	o := zzOpts()
+	o.ReadOnly = true
+	held, err := bolt.Open(path, 0400, o) // another process reading the file
+	zz.Assert(err == nil, "inspect/holder")
+	ev0 := zz.EventCount()
+	cmd := &cobra.Command{}
+	var cerr error
+	switch zz.Choose(zz.Param("ncmds", 7)) {
+	case 0:
+		zz.Reach("keys")
+		cerr = keysFunc(cmd, keysOptions{format: "hex"}, path, "b")
+	case 1:
+		zz.Reach("get")
+		cerr = getFunc(cmd, path, []string{"b"}, []byte("k0"), getOptions{parseFormat: "ascii-encoded", format: "hex"})
+	case 2:
+		zz.Reach("buckets")
+		cerr = bucketsFunc(cmd, path)
+	case 3:
+		zz.Reach("stats")
+		cerr = statsFunc(cmd, path, "")
+	case 4:
+		zz.Reach("info")
+		cerr = infoFunc(cmd, path)
+	case 5:
+		zz.Reach("pages")
+		cerr = pagesFunc(cmd, path)
+	case 6:
+		zz.Reach("check")
+		cerr = checkFunc(cmd, path, checkOptions{})
+	}
+	zz.Assert(cerr == nil, "inspect/command-coexists-with-a-read-only-holder")
+	zzNoWrites(path, ev0, "inspect/no-write-to-file")
+	zz.Assert(held.Close() == nil, "inspect/holder-close")
+	zz.Assert(zzSameBytes(zz.FileBytes(path), before), "inspect/file-unchanged")
+	ex, sh := zz.LockHolders(path)
+	zz.Assert(ex == 0 && sh == 0, "inspect/no-lock-left")
+	zz.Reach("done")
+}
